@@ -77,6 +77,7 @@ type Env struct {
 	deferredOps []deferred
 	expirePass  bool // the client is running Transaction.Expire itself
 
+	maxWall      time.Time   // highest wall-clock reading at any call boundary (upper bound of the library's timestamp generator)
 	storing      *simrt.Task // task inside SimStore.Store
 	storingEpoch int
 
@@ -120,6 +121,18 @@ func newEnv(plan *Plan) *Env {
 func (e *Env) logf(format string, a ...any) {
 	if len(e.out.Log) < 4000 {
 		e.out.Log = append(e.out.Log, fmt.Sprintf(format, a...))
+	}
+}
+
+// noteWall records the current wall-clock reading. The library's timestamp generator never runs backwards, so
+// after a wall-clock step backwards its notion of "now" is the highest reading it has seen; readings are taken
+// at every call boundary, store entry and right before every clock step, which bounds it from above.
+func (e *Env) noteWall() {
+	if e.sim == nil {
+		return
+	}
+	if w := time.Now().Add(e.sim.WallOffset()); w.After(e.maxWall) {
+		e.maxWall = w
 	}
 }
 
@@ -179,6 +192,7 @@ func (s *SimStore) Store(c *lungo.Catalog) error {
 	n := e.storeCalls
 	e.storeCalls++
 	wallIn := time.Now().Add(e.sim.WallOffset())
+	e.noteWall()
 	f, has := e.storeFaults[n]
 	if has && f.Kind == "store-latency" {
 		e.fault("store-latency")
@@ -391,10 +405,12 @@ func (e *Env) stepHook(s *simrt.Sim) bool {
 					}
 				}
 			case "clock-jump":
+				e.noteWall()
 				s.SetWallOffset(s.WallOffset() + time.Duration(f.Ms)*time.Millisecond)
 				e.fault("clock-jump")
 				e.logf("step %d: wall clock stepped by %dms", s.Steps(), f.Ms)
 			case "clock-back":
+				e.noteWall()
 				s.SetWallOffset(s.WallOffset() - time.Duration(f.Ms)*time.Millisecond)
 				e.fault("clock-back")
 				e.logf("step %d: wall clock stepped back by %dms", s.Steps(), f.Ms)
